@@ -68,7 +68,8 @@ class Rec:
         if id(o) not in self.ids: self.ids[id(o)] = len(self.objs); self.objs.append(o)
         return self.ids[id(o)]
 def run_case(text):
-    src = parse(text)
+    try: src = parse(text)
+    except Exception: KIND['(document not parsed: skipped)'] += 1; return None
     if getattr(src, 'contains_error', False): return None
     rec = Rec()
     orig = {n: getattr(M, n) for n in ('scopes_for_owner', 'set_resolution_context', 'attach_resolution_context')}
